@@ -392,7 +392,10 @@ def _derive(check: Check):
         ok = isinstance(inner, ast.Call) and txt(inner.func) == f'self._base.{name}' and [ff.param_of(a) for a in inner.args] == mth.positional_params[1:]
         ids = rv.args[1]
         if name == 'slice':
-          ok = ok and isinstance(ids, ast.Name) and ids.id == 'client_ids'
+          srcs = ff.expand(ids)
+          ok = ok and bool(srcs) and all(txt(x) == 'self._client_ids' or (isinstance(x, ast.Call) and txt(x.func) == 'set' and x.args and isinstance(
+              x.args[0], (ast.GeneratorExp, ast.SetComp, ast.ListComp)) and txt(x.args[0].generators[0].iter) == 'self._client_ids') or (
+                  isinstance(x, (ast.SetComp,)) and txt(x.generators[0].iter) == 'self._client_ids') for x in srcs)
         else:
           ok = ok and txt(ids) == 'self._client_ids'
       check.ob('R-DERIVE', mth, txt(rv)[:100] if rv is not None else 'return', ok,
@@ -464,10 +467,13 @@ def _preprocessors(check: Check):
     for n in cff.cfg.nodes:
       if n.kind == 'for' and txt(n.ast.iter) == 'self._fns':
         loop_ok = True
-    for ds in cff.rd.defs_at.values():
-      for d in ds:
-        if d.name == 'out' and isinstance(d.value, ast.Call) and cff.ext(d.value.func) == 'builtins.dict':
-          copy_ok = True
+    for n in cff.cfg.nodes:
+      if n.kind == 'for' and txt(n.ast.iter) == 'self._fns':
+        for st in n.ast.body:
+          if isinstance(st, ast.Assign) and isinstance(st.value, ast.Call) and st.value.args and isinstance(st.value.args[-1], ast.Name):
+            it_node = next(x for x in cff.cfg.nodes if x.kind == 'for-iter' and x.ast is n.ast)
+            first = cff.rd.reaching(it_node, st.value.args[-1].id)
+            copy_ok = bool(first) and all(isinstance(d.value, ast.Call) and cff.ext(d.value.func) == 'builtins.dict' for d in first)
     check.ob('R-ORDER.chain', call, 'for f in self._fns: out = f(out)', loop_ok and copy_ok,
              f'functions run in registration order (ok={loop_ok}) on a copy of the input mapping (ok={copy_ok})')
 
